@@ -13,6 +13,8 @@ HARNESSES = [
     dict(name="sbaseq2k", src=["sbaseq.c"], variant="asan", cflags=_P2K, deadline={"quick": 150, "thorough": 1200}),
     dict(name="sbaseq2k-dbg", src=["sbaseq.c"], variant="asan-dbg", cflags=_P2K + ["-DSBASEQ_DEBUG_ONLY=1"],
          tiers=["thorough"], deadline={"thorough": 600}),
+    # page-capacity boundaries of every size class: 0 .. three pages' worth + 2 live blocks x six release orders (BEE)
+    dict(name="sbafill", src=["sbafill.c"], variant="asan", deadline={"quick": 150, "thorough": 600}),
     # concurrent half: 2-3 threads on a multi-threaded allocator, every interleaving at the per-bin mutexes
     dict(name="sbamt", src=["sbamt.c"], variant="sched", wrap=True, deadline={"quick": 150, "thorough": 1500}),
     # free-running ThreadSanitizer twin of the scenario bodies (DESIGN 4.5): no wrapping, OS scheduler, decides nothing;
